@@ -318,7 +318,9 @@ func Gen06(t *rapid.T) Case06 {
 	} else {
 		c.Base = B(gen.BaseString(t, "base"))
 	}
-	if rapid.IntRange(0, 3).Draw(t, "refKind") == 0 {
+	if k := rapid.IntRange(0, 15).Draw(t, "refKind"); k == 0 {
+		c.Ref = c.Base // the base string itself as the reference
+	} else if k <= 4 {
 		c.Ref = B(gen.Input(t, "ref"))
 	} else {
 		c.Ref = B(gen.Ref(t, "ref", gen.SchemeOf(string(c.Base))))
